@@ -37,6 +37,8 @@ structure FloatOps where
   abs64 : F64 → F64
   neg64 : F64 → F64
   sqrt64 : F64 → F64
+  round64 : F64 → F64          -- `f64::round`
+  toI8_64 : F64 → Int          -- `as i8` of an f64 (saturating, NaN ↦ 0)
   lt64 : F64 → F64 → Bool
   eq64 : F64 → F64 → Bool
   isNaN64 : F64 → Bool
@@ -101,6 +103,7 @@ structure FloatLaws (F : FloatOps) : Prop where
   negZero32_ge0 : F.ge0_32 F.negZero32 = true
   negZero64_ge0 : F.ge0_64 F.negZero64 = true
   zero64_ge0 : F.ge0_64 F.zero64 = true
+  sq64_ge0 : ∀ x, F.isNaN64 x = false → F.ge0_64 (F.mul64 x x) = true
   inf64_ge0 : F.ge0_64 F.inf64 = true
   /-- exact zero facts (round-to-nearest: `x-x = +0`, `(+0)² = +0`, `-0 + +0 = +0`, …). -/
   sub_self : ∀ x, F.isFin32 x = true → F.sub32 x x = F.zero32
